@@ -149,9 +149,14 @@ def run(tier, seed, only=None):
     gl = gen.generated(tier, seed)
     items = [('named-module/variant%d' % v, named_spec(v), timeout_ms) for v in ((0,) if tier == 'quick' else (0, 1, 2))]
     items += [(n + '+names', gen.with_names(sp, k), timeout_ms) for k, (n, sp) in enumerate(gl)]
+    # a name section in which only ONE subsection is present (the emitter's "nothing is named" shortcut must look at all nine)
+    for sub in ('module', 'functions', 'locals', 'types', 'tables', 'memories', 'globals', 'elements', 'data'):
+        sp1 = named_spec(0)
+        sp1.names = {sub: sp1.names[sub]}
+        items.append(('only-' + sub, sp1, timeout_ms))
     items = [i for i in items if not only or i[0] in only]
     pc.run_parallel(ctx, report, run_scenario, items)
-    report.bounds = {'generated': gen.bounds_text(tier, len(gl)) + ', each with a name section naming a drawn subset (about 60%) of the entities of every index space and of the locals', 'names': 'one description (three in the thorough tier) with a module name and partial name maps for all eight index spaces plus locals (parameter, two used declared locals, one unused local)',
+    report.bounds = {'single subsection': 'nine descriptions whose name section holds exactly one of the nine subsections', 'generated': gen.bounds_text(tier, len(gl)) + ', each with a name section naming a drawn subset (about 60%) of the entities of every index space and of the locals', 'names': 'one description (three in the thorough tier) with a module name and partial name maps for all eight index spaces plus locals (parameter, two used declared locals, one unused local)',
                      'renumbering': 'functions are re-sorted by size, types re-sorted, locals compacted; the expected attachment is derived from the renumbering recovered from the output'}
     report.assumptions = ['names are distinct concrete tokens; the name-section reader yields the described subsections in the order module, functions, locals, types, tables, memories, globals, elements, data',
                           'the name section follows the code section (as in every real module)']
